@@ -49,6 +49,33 @@ func (v *verifSlowStore) Put(key string, i interface{}) error {
 	return v.StateStorer.Put(key, i)
 }
 
+// the real cheque store with a one-shot hook fired right after a persisted total was read
+type verifHookedStore struct {
+	chequePkg.ChequeStore
+	mu   sync.Mutex
+	hook func()
+}
+
+func (h *verifHookedStore) fire() {
+	h.mu.Lock()
+	f := h.hook
+	h.hook = nil
+	h.mu.Unlock()
+	if f != nil { f() }
+}
+
+func (h *verifHookedStore) GetRetrieveTraffic(a common.Address) (*big.Int, error) {
+	v, err := h.ChequeStore.GetRetrieveTraffic(a)
+	h.fire()
+	return v, err
+}
+
+func (h *verifHookedStore) GetTransferTraffic(a common.Address) (*big.Int, error) {
+	v, err := h.ChequeStore.GetTransferTraffic(a)
+	h.fire()
+	return v, err
+}
+
 type verifBook struct{ peer boson.Address; chain common.Address }
 
 func (b verifBook) Beneficiary(p boson.Address) (common.Address, bool) { return b.chain, p.Equal(b.peer) }
@@ -113,6 +140,44 @@ func TestVerifReplay(t *testing.T) {
 		if retrieve { after = tr2.retrieveTraffic }
 		if after.Cmp(before) < 0 {
 			t.Logf("REPLAY-CONFIRMED two concurrent updates (+5, +7) of the %stotal with the first store write delayed: total before restart %v, restored %v (the older value was persisted last)", prefix, before, after); return
+		}
+	}
+
+	// ---- (3) a refresh of the record (the periodic / API-triggered restore) overlapping an update:
+	// the update tries to run right after the refresh has read the persisted total
+	for _, retrieve := range []bool{true, false} {
+		base := mock.NewStateStore()
+		s := verifService(base, self, book)
+		hs := &verifHookedStore{ChequeStore: s.chequeStore}
+		s.chequeStore = hs
+		put := func(n int64) error {
+			if retrieve { return s.PutRetrieveTraffic(peer, big.NewInt(n)) }
+			return s.PutTransferTraffic(peer, big.NewInt(n))
+		}
+		if err := put(100); err != nil { t.Fatal(err) }
+		done := make(chan error, 1)
+		hs.mu.Lock()
+		hs.hook = func() {
+			go func() { done <- put(50) }()
+			select {
+			case err := <-done: // slipped in between the read and the merge
+				done <- err
+			case <-time.After(300 * time.Millisecond): // waits for the record: it runs after the refresh
+			}
+		}
+		hs.mu.Unlock()
+		if err := s.trafficPeerChequeUpdate(peerChain, map[common.Address]*chequePkg.Cheque{}, map[common.Address]*chequePkg.SignedCheque{}); err != nil { t.Fatal(err) }
+		if err := <-done; err != nil { t.Fatal(err) }
+		if err := put(10); err != nil { t.Fatal(err) }
+		time.Sleep(50 * time.Millisecond)
+		s2 := verifService(base, self, book)
+		if err := s2.trafficPeerChequeUpdate(peerChain, map[common.Address]*chequePkg.Cheque{}, map[common.Address]*chequePkg.SignedCheque{}); err != nil { t.Fatal(err) }
+		tr2 := s2.getTraffic(peerChain)
+		after := tr2.transferTraffic
+		what := "transfer"
+		if retrieve { after = tr2.retrieveTraffic; what = "retrieve" }
+		if after.Cmp(big.NewInt(160)) < 0 {
+			t.Logf("REPLAY-CONFIRMED %s total: 100 accounted, a refresh of the record overlapping an update of +50, then +10: restored after restart %v, accounted 160", what, after); return
 		}
 	}
 
